@@ -42,6 +42,9 @@ for _f in ('GraphBuilder._connect_nodes#node', 'GraphBuilder._connect_nodes#set'
            'GraphBuilder.add_ordinary_node', 'GraphBuilder._add_jump_node', 'Node.freeze'):
   SCRIPTS['malt.pyct.cfg.' + _f] = ('bounded/c05_paths.py', ['1', 'quick'])
 
+for _f in ('malt.pyct.static_analysis.reaching_definitions.Analyzer.visit_node', 'lemma.C06.rd_visit_node_refines_abstract'):
+  SCRIPTS[_f] = ('bounded/rt_rd.py', ['0', 'quick'])
+
 _cache = {}
 
 
